@@ -58,6 +58,39 @@ CHECKS = {
         note="Containing-cell arithmetic, prefix property and full consumption of the input are NOT decided.",
         technique="CFG typestate (commit-last) + Kleene NaN evaluation + path-fact check on strchr",
         ref="3.4, 4 (C18)"),
+    'C01': dict(
+        text="Decides one structural necessary condition of the accuracy statement: the Maxima-generated series "
+             "tables A1, C1, C1', A3, C3 of the active order agree, monomial by monomial as exact rationals, with the "
+             "tables of every other order the source carries under #if (a Taylor coefficient cannot depend on the "
+             "truncation order). A wrong high-order coefficient - the first risk the property names - breaks an equation.",
+        note="NARROW: does not decide that the result lies on the geodesic, ranges of longitude/azimuth or circuit "
+             "counting. Consistent tables need not be the right series. Layout descriptions in glv/rules/tab.py "
+             "are trusted (they must consume each table exactly or the check is inconclusive).",
+        technique="contradiction rule over sibling constant tables (exact rational comparison of AST initialisers across build configurations)",
+        ref="3.5 T1, 4 (C01)"),
+    'C03': dict(
+        text="Sibling agreement (as C01) for the tables behind m12, M12, M21 and S12: A2, C2 and the C4 area series.",
+        note="NARROW: Jacobi-equation values, addition rules, the DST area of the exact solver are not decided.",
+        technique="contradiction rule over sibling constant tables (exact rational comparison across series orders)",
+        ref="3.5 T1, 4 (C03)"),
+    'C06': dict(
+        text="Sibling agreement of the Krueger tables b1, alp, bet of TransverseMercator across orders 4..8.",
+        note="NARROW: conformality, inverse accuracy and the exact form are not decided.",
+        technique="contradiction rule over sibling constant tables (exact rational comparison across series orders)",
+        ref="3.5 T1, 4 (C06)"),
+    'C09': dict(
+        text="Sibling agreement of the rhumb area matrix (orders 4..8) and of the AuxLatitude blocks and radius series "
+             "the rhumb code converts through (orders 4, 6, 8).",
+        note="NARROW: every numerical clause (course, length, area value, pole handling) is not decided.",
+        technique="contradiction rule over sibling constant tables (exact rational comparison across series orders)",
+        ref="3.5 T1, 4 (C09)"),
+    'C15': dict(
+        text="Sibling agreement of all 30 AuxLatitude conversion blocks and both radius series (533 monomials) and "
+             "consistency of the ptrs[] offsets with the layout the consumer loop implies (T2).",
+        note="NARROW: values of the conversions, Ellipsoid and EllipticFunction are not decided. 273 order-6 monomials "
+             "have a single sibling (order 8).",
+        technique="contradiction rule over sibling constant tables + layout consistency of offset table",
+        ref="3.5 T1/T2, 4 (C15)"),
 }
 
 NOT_APPLICABLE = {
